@@ -215,8 +215,8 @@ def build(tier, rng):
 
     def costs_for(fmt):
         if fmt.startswith("sha"):
-            # 5000: passlib renders the implicit form "$5$salt$checksum"; 1000+42k+r: block/pair/odd tail
-            return [1000, 5000, 1043] if quick else [1000, 1001, 1041, 1042, 1043, 1085, 1999, 2000, 5000]
+            # 5000: passlib renders the implicit form "$5$salt$checksum"; 1000+42k+r: block/pair/odd tail; 1008 / 1009: no tail / a single odd round without a pair
+            return [1000, 5000, 1043, 1008, 1009] if quick else [1000, 1001, 1008, 1009, 1010, 1041, 1042, 1043, 1051, 1085, 1999, 2000, 5000, 5041]
         if fmt.startswith("pbkdf2"):
             return [1, 2, 29] if quick else [1, 2, 3, 10, 29, 1000]
         if fmt == "bcrypt":
